@@ -49,7 +49,7 @@ InputOK(H, inp, src) == inp.t = "emb" /\ src # "none" => inp.stamp = H[src]
    generator builds into the world: does the entry really belong to the owner?                       *)
 OutboxClasses == {"legit_emb", "legit_ref", "legit_actor_emb", "legit_noid", "legit_stub", "legit_announce",
                   "other_actor", "other_actor_samehost_query", "no_actor", "fetch_fails", "not_activity",
-                  "foreign_claims_owner_id", "actor_fetch_fails", "other_actor_emb_forged"}
+                  "foreign_claims_owner_id", "actor_fetch_fails"}
 ReplyClasses  == {"legit_emb", "legit_ref", "legit_stub", "other_parent", "no_parent", "parent_fetch_fails",
                   "fetch_fails", "not_post", "parent_other_host_same_path", "forged_author"}
 Legit(class) == class \in {"legit_emb", "legit_ref", "legit_actor_emb", "legit_noid", "legit_stub", "legit_announce"}
